@@ -163,12 +163,14 @@ class ForeignThread(object):
   pass
 
 
-def _mk_schedule_from_a_foreign_thread(have_default):
+def _mk_schedule_from_a_foreign_thread(have_default, running=True):
   def u(b):
     hub, hub2 = b.raw_new(Hub), b.raw_new(Hub)
     other = b.raw_new(BaseTask, priority=1, id=7)
     task = b.raw_new(BaseTask, priority=1, id=8)
-    own_thread = b.raw_new(ForeignThread)
+    # running=False: a scheduler that has no thread of its own (yet) - nobody can claim to be on its thread, so every caller
+    # goes through the helper task (seeded change C07_8 let them take the unsynchronised check-then-append path)
+    own_thread = b.raw_new(ForeignThread) if running else None
     s = b.raw_new(Scheduler, _ready=b.deque([other]), _selectHub=hub, _hasQuit=False, _allDone=False, _thread=own_thread)
     # another scheduler that happens to be the process-wide default one (or no default at all): the hand-off must not go there
     d = b.raw_new(Scheduler, _ready=b.deque([]), _selectHub=hub2, _hasQuit=False, _allDone=False, _thread=None) if have_default else None
@@ -198,13 +200,15 @@ def _mk_schedule_from_a_foreign_thread(have_default):
       "nothing_is_queued_on_any_other_scheduler": lambda res: res[2] == [],
       "this_scheduler_is_woken": lambda res: [e[0] for e in slog(b)] == ["break_idle"],
     })
-  u.__name__ = "schedule_from_a_foreign_thread_%s" % ("another_default_scheduler" if have_default else "no_default_scheduler")
+  u.__name__ = "schedule_from_a_foreign_thread_%s%s" % ("another_default_scheduler" if have_default else "no_default_scheduler",
+                                                       "" if running else "_scheduler_without_a_thread")
   u.bound = "one other ready task"
   unit(P, target=RC + "Scheduler.schedule / BaseTask.start")(u)
 
 
 _mk_schedule_from_a_foreign_thread(True)
 _mk_schedule_from_a_foreign_thread(False)
+_mk_schedule_from_a_foreign_thread(True, running=False)
 
 
 # ---------------------------------------------------------------- Synchronizer / SyncTask
@@ -416,3 +420,60 @@ def every_thread_gets_its_own_synchronizer(b):
       lambda res: type(res[4]) is Synchronizer and res[4] is not res[1] and res[4].scheduler is res[0] and res[4].enter == 0,
   })
 every_thread_gets_its_own_synchronizer.bound = "two threads"
+
+
+# ---------------------------------------------------------------- SelectHub._select woken by its pinger: pong FIRST, then drain
+# (added 2026-09-25 after seeded change C07_9 ponged after draining `_incoming`: a registration whose put + ping land between
+# the drain and the pong has its ping swallowed - and `_incoming` is only looked at when the pinger is readable, so not even
+# the polling timeout picks it up: a callLater from a foreign thread then never runs)
+
+class HubPinger(object):
+  def pongAll(self):
+    self.trace.log.append(("pong", len(self.queue.items)))
+
+
+class IncomingQueue(object):
+  """stand-in for the hub's thread-safe Queue: records when it is looked at"""
+  def empty(self):
+    self.trace.log.append(("empty?", len(self.items)))
+    return len(self.items) == 0
+
+  def get(self, block=True):
+    return self.items.pop(0)
+
+  def task_done(self):
+    pass
+
+
+class SelFnPinged(object):
+  def __call__(self, r, w, x, timeout):
+    return ([self.pinger], [], [])
+
+
+def _mk_hub_wakeup(n_new):
+  def u(b):
+    tr = b.raw_new(Trace, log=b.list([]))
+    new = [b.raw_new(BaseTask, priority=1, id=20 + i, rv=None) for i in range(n_new)]
+    q = b.raw_new(IncomingQueue, trace=tr, items=b.list([(t, None, None, None, None) for t in new]))
+    pinger = b.raw_new(HubPinger, trace=tr, queue=q)
+    sel = b.raw_new(SelFnPinged, pinger=pinger)
+    hub = b.raw_new(SelectHub, _pinger=pinger, _incoming=q, _scheduler=None, _select_func=sel)
+    tdict = b.dict({})
+    cs = {}
+    if b.mode == "sym":
+      cs = {"time:time": CallSpec("assumed", returns=lambda I, st, a, k: 1000.0, envelope="clock")}
+    def run(hub, tdict):
+      hub._select(tdict, {})
+      return ([e for e in tr.log], [k_ for k_ in tdict])
+    return Case(run, [hub, tdict], calls=cs, raises={}, ensures={
+      "the_ping_is_consumed_before_the_queue_of_new_registrations_is_looked_at":
+        lambda res: len(res[0]) >= 2 and res[0][0] == ("pong", n_new) and all([e[0] == "empty?" for e in res[0][1:]]),
+      "every_queued_registration_is_picked_up": lambda res: len(res[1]) == n_new and all([any([k_ is t for k_ in res[1]]) for t in new]),
+    })
+  u.__name__ = "hub_woken_by_its_pinger_pongs_then_drains_%d_registrations" % n_new
+  u.bound = "0..2 new registrations queued"
+  unit(P, target=RC + "SelectHub._select (pinger wake-up)")(u)
+
+
+for _n in (0, 1, 2):
+  _mk_hub_wakeup(_n)
